@@ -352,5 +352,239 @@ Proof.
   pose proof (pairK_coverage _ p HJ Hd Hu) as C.
   rewrite !covered_split by exact Hb. rewrite (JK_aggr _ HJ), !(JK_counts _ HJ) in C. exact C.
 Qed.
+
+(* ------------------------------------------------------------------ legality of the trace *)
+(* every gene popped in a batch: a gene of the thinned array that was unchosen when the batch was
+   formed, and no gene that was unchosen then and has not been popped earlier in the batch had a
+   larger utility (utility = the array as it stood when the batch was formed, i.e. after the
+   update of this iteration); the batch has exactly k genes and is appended in order *)
+Theorem batch_trace_legal st pool batch st' pool' :
+  JK st -> PI st pool -> stepk st pool batch = SNext st' pool' ->
+  let st1 := update_filled st in
+  length batch = k /\ chosen st' = chosen st ++ batch /\ NoDup batch /\
+  forall b1 g b2, batch = b1 ++ g :: b2 ->
+    g < n_genes /\ ~ In g (chosen st) /\
+    forall h, h < n_genes -> ~ In h (chosen st) -> ~ In h b1 -> (utility st1 h <= utility st1 g)%Z.
+Proof.
+  intros HJ HP H. cbv zeta. apply stepk_next in H. destruct H as [F H].
+  pose proof (PI_refresh _ _ HP) as HP1.
+  destruct (popk_shape _ _ _ _ _ _ H) as (L & Ch & _ & Lg).
+  split; [exact L|]. split; [exact Ch|]. split.
+  - (* NoDup: a gene is never popped twice in a batch *)
+    clear - Lg. induction batch as [|x b IH] using rev_ind; [constructor|].
+    apply NoDup_app; [|repeat constructor; intros []|].
+    + apply IH. intros b1 g b2 E. apply (Lg b1 g (b2 ++ [x])). rewrite E, <- app_assoc. reflexivity.
+    + intros y Hy [<-|[]]. destruct (Lg b x [] eq_refl) as (_ & _ & A & _). contradiction.
+  - intros b1 g b2 E. destruct (Lg b1 g b2 E) as (A1 & A2 & _ & A4).
+    split; [apply (PI_genes _ _ HP1); exact A1|]. split; [exact A2|].
+    intros h Hh Hn Hb. apply A4; [|exact Hb]. apply (PI_all _ _ HP1); assumption.
+Qed.
+
+(* the first gene of every batch is a reference marker of a slot of the parent that was not yet
+   filled (its utility is positive) - the part of "only useful genes" that survives k >= 2 *)
+Theorem batch_head_is_marker st pool g b st' pool' :
+  JK st -> PI st pool -> stepk st pool (g :: b) = SNext st' pool' ->
+  exists s, In s slots /\ marks g s = true /\ filled (update_filled st) s = false.
+Proof.
+  intros HJ HP H. apply stepk_next in H. destruct H as [F H].
+  pose proof (JK_update _ HJ) as HJ1. pose proof (PI_refresh _ _ HP) as HP1.
+  destruct k as [|j]; cbn [SelectionK.popk] in H; [discriminate|].
+  destruct (refresh st pool) as [|p0 pr] eqn:Ep; [discriminate|]. rewrite <- Ep in *.
+  destruct (is_top (update_filled st) (refresh st pool) g) eqn:T; [|discriminate].
+  destruct (top_unfinished _ _ _ HJ1 HP1 F T) as (C & _ & _ & Pos).
+  rewrite (JK_util _ HJ1 g C) in Pos.
+  assert (P : 0 < util (filled (update_filled st)) g) by lia.
+  apply count_pos in P. destruct P as (s & Hs & Hm). apply andb_true_iff in Hm.
+  destruct Hm as [M1 M2]. apply negb_true_iff in M2. exists s. auto.
+Qed.
 End Batch.
+
+(* ------------------------------------------------------------------ k = 1 is the model of Selection.v *)
+Definition kres_opt (r : kres) : option state := match r with KDone st => Some st | _ => None end.
+
+Lemma step_cond_top st pool g :
+  JK st -> PI st pool -> finished st = false ->
+  is_top st pool g && negb (nmem g (chosen st)) =
+  negb (nmem g (chosen st)) && nmem g genes && (utility st g =? max_utility st)%Z.
+Proof.
+  intros HJ HP F.
+  destruct (is_top st pool g) eqn:T.
+  - destruct (top_unfinished _ _ _ HJ HP F T) as (C & Hg & Hu & _).
+    apply nmem_false in C. rewrite C. cbn.
+    apply genes_in, nmem_in in Hg. rewrite Hg, Hu, Z.eqb_refl. reflexivity.
+  - cbn [andb]. symmetry. apply not_true_is_false. intros A.
+    apply andb_true_iff in A. destruct A as [A A3]. apply andb_true_iff in A. destruct A as [A1 A2].
+    apply negb_true_iff, nmem_false in A1. apply nmem_in, genes_in in A2. apply Z.eqb_eq in A3.
+    assert (T' : is_top st pool g = true).
+    { apply is_top_spec. split; [apply (PI_all _ _ HP); assumption|].
+      intros h Hh. rewrite A3. apply max_utility_ge. apply (PI_genes _ _ HP). exact Hh. }
+    congruence.
+Qed.
+
+Theorem batch_one_is_run trace : forall st pool i,
+  JK st -> PI st pool ->
+  kres_opt (runk n_genes pairs marks n 1 st pool (map (fun g => [g]) trace) i) = run st trace.
+Proof.
+  induction trace as [|g t IH]; intros st pool i HJ HP; cbn [map SelectionK.runk Selection.run].
+  - destruct (finished (update_filled st)); reflexivity.
+  - unfold SelectionK.stepk, Selection.step.
+    destruct (finished (update_filled st)) eqn:F; [reflexivity|].
+    pose proof (JK_update _ HJ) as HJ1. pose proof (PI_refresh _ _ HP) as HP1.
+    pose proof (step_cond_top _ _ g HJ1 HP1 F) as Hc.
+    pose proof (pool_nonempty_unfinished _ _ HJ1 HP1 F) as Hne.
+    rewrite <- Hc. clear Hc.
+    cbn [SelectionK.popk]. destruct (refresh st pool) as [|p0 pr] eqn:Ep; [congruence|]. rewrite <- Ep in *.
+    destruct (is_top (update_filled st) (refresh st pool) g) eqn:T; cbn [andb]; [|reflexivity].
+    destruct (nmem g (chosen (update_filled st))) eqn:C; cbn [negb].
+    + destruct t; reflexivity.
+    + apply nmem_false in C. apply is_top_spec in T. destruct T as [T1 _].
+      apply IH; [apply JK_choose; [exact HJ1 | exact C | apply (PI_genes _ _ HP1); exact T1] | apply PI_choose; exact HP1].
+Qed.
+
+(* with k = 1 the loop never raises, whatever batches are offered *)
+Theorem batch_one_never_raises trace : forall st pool i e,
+  JK st -> PI st pool -> runk n_genes pairs marks n 1 st pool trace i <> KRaise e.
+Proof.
+  induction trace as [|b t IH]; intros st pool i e HJ HP; cbn [SelectionK.runk].
+  - destruct (finished (update_filled st)); discriminate.
+  - destruct (stepk n_genes pairs marks n 1 st pool b) as [st1 pool1|e1|] eqn:S.
+    + destruct (stepk_inv 1 _ _ _ _ _ HJ HP S) as [HJ1 HP1]. apply IH; assumption.
+    + exfalso. unfold SelectionK.stepk in S.
+      destruct (finished (update_filled st)) eqn:F; [discriminate|].
+      pose proof (JK_update _ HJ) as HJ1. pose proof (PI_refresh _ _ HP) as HP1.
+      pose proof (pool_nonempty_unfinished _ _ HJ1 HP1 F) as Hne.
+      cbn [SelectionK.popk] in S. destruct (refresh st pool) as [|p0 pr] eqn:Ep; [congruence|]. rewrite <- Ep in *.
+      destruct b as [|g b']; [discriminate|].
+      destruct (is_top (update_filled st) (refresh st pool) g) eqn:T; [|discriminate].
+      destruct (top_unfinished _ _ _ HJ1 HP1 F T) as (C & _). apply nmem_false in C. rewrite C in S.
+      destruct b'; discriminate.
+    + discriminate.
+Qed.
+
+(* ------------------------------------------------------------------ termination *)
+Section Fuel.
+Variable k : nat.
+Notation greedyk := (greedyk n_genes pairs marks n k).
+Notation runk := (runk n_genes pairs marks n k).
+
+Lemma first_top_spec st pool :
+  match first_top st pool with
+  | Some g => is_top st pool g = true
+  | None => pool = []
+  end.
+Proof.
+  unfold first_top.
+  destruct (find (fun g => forallb (fun h => (utility st h <=? utility st g)%Z) pool) pool) as [g|] eqn:E.
+  - apply find_some in E. destruct E as [E1 E2]. unfold is_top. apply nmem_in in E1. rewrite E1, E2. reflexivity.
+  - destruct pool as [|p0 pr] eqn:Ep; [reflexivity|]. exfalso. rewrite <- Ep in *.
+    (* a non-empty list has a member of maximal utility *)
+    assert (Hmax : exists g, In g pool /\ forall h, In h pool -> (utility st h <= utility st g)%Z).
+    { assert (Hn : pool <> []) by (rewrite Ep; discriminate). clear - Hn.
+      induction pool as [|x r IH]; [congruence|]. destruct r as [|y r'].
+      - exists x. split; [left; reflexivity|]. intros h [<-|[]]. lia.
+      - destruct IH as (g & G1 & G2); [discriminate|].
+        destruct (Z_le_gt_dec (utility st x) (utility st g)) as [Le|Gt].
+        + exists g. split; [right; exact G1|]. intros h [<-|Hh]; [exact Le | apply G2; exact Hh].
+        + exists x. split; [left; reflexivity|]. intros h [<-|Hh]; [lia | specialize (G2 h Hh); lia]. }
+    destruct Hmax as (g & G1 & G2). pose proof (find_none _ _ E g G1) as Hf. cbv beta in Hf.
+    assert (forallb (fun h => (utility st h <=? utility st g)%Z) pool = true); [|congruence].
+    apply forallb_forall. intros h Hh. apply Z.leb_le. apply G2. exact Hh.
+Qed.
+
+(* the deterministic pops are a legal batch with the same outcome *)
+Lemma popg_popk j : forall st pool,
+  match popg marks j st pool with
+  | GP st2 pool2 => exists batch, popk marks j st pool batch = POk st2 pool2
+  | GPErr e => exists batch, popk marks j st pool batch = PErr e
+  end.
+Proof.
+  induction j as [|j IH]; intros st pool; cbn [SelectionK.popg].
+  - exists []. reflexivity.
+  - pose proof (first_top_spec st pool) as Ft. destruct (first_top st pool) as [g|].
+    + assert (Hp : pool <> []).
+      { apply is_top_spec in Ft. destruct Ft as [Ft _]. intros ->. destruct Ft. }
+      destruct (nmem g (chosen st)) eqn:C.
+      * exists [g]. cbn [SelectionK.popk]. destruct pool; [congruence|]. rewrite Ft, C. reflexivity.
+      * specialize (IH (choose st g) (pool_remove g pool)).
+        destruct (popg marks j (choose st g) (pool_remove g pool)) as [st2 pool2|e];
+          destruct IH as (b & Hb); exists (g :: b); cbn [SelectionK.popk];
+          (destruct pool; [congruence|]); rewrite Ft, C; exact Hb.
+    + subst pool. exists []. reflexivity.
+Qed.
+
+Lemma greedyk_enough fuel : forall st pool i,
+  1 <= k -> JK st -> PI st pool -> n_genes - length (chosen st) < fuel ->
+  exists trace,
+    match greedyk fuel st pool with
+    | GDone st' => runk st pool trace i = KDone st'
+    | GRaise e => runk st pool trace i = KRaise e
+    | GOutOfFuel => False
+    end.
+Proof.
+  induction fuel as [|f IH]; intros st pool i Hk HJ HP Hf; [lia|]. cbn [SelectionK.greedyk].
+  destruct (finished (update_filled st)) eqn:F.
+  - exists []. cbn [SelectionK.runk]. rewrite F. reflexivity.
+  - pose proof (JK_update _ HJ) as HJ1. pose proof (PI_refresh _ _ HP) as HP1.
+    pose proof (popg_popk k (update_filled st) (refresh st pool)) as G.
+    destruct (popg marks k (update_filled st) (refresh st pool)) as [st2 pool2|e].
+    + destruct G as (b & Hb).
+      destruct (popk_inv _ _ _ _ _ _ Hb HJ1 HP1) as [HJ2 HP2].
+      destruct (popk_shape _ _ _ _ _ _ Hb) as (L & Ch & _).
+      pose proof (chosenK_bound _ HJ2) as B. rewrite Ch, app_length in B.
+      change (chosen (update_filled st)) with (chosen st) in B.
+      destruct (IH st2 pool2 (S i) Hk HJ2 HP2) as (tr & Htr).
+      { rewrite Ch, app_length. change (chosen (update_filled st)) with (chosen st). lia. }
+      exists (b :: tr). cbn [SelectionK.runk]. unfold SelectionK.stepk. rewrite F, Hb. exact Htr.
+    + destruct G as (b & Hb). exists [b]. cbn [SelectionK.runk]. unfold SelectionK.stepk. rewrite F, Hb. reflexivity.
+Qed.
+
+Theorem batch_terminates :
+  1 <= k ->
+  exists trace,
+    match greedyk (S n_genes) start pool0 with
+    | GDone st => replayk n_genes pairs marks n k (chosen start) trace = KDone st
+    | GRaise e => replayk n_genes pairs marks n k (chosen start) trace = KRaise e
+    | GOutOfFuel => False
+    end.
+Proof.
+  intros Hk. destruct (greedyk_enough (S n_genes) start pool0 0 Hk JK_start PI_pool0) as (tr & H); [lia|].
+  exists tr. unfold replayk.
+  assert (E : list_eqb (chosen start) (chosen start) = true).
+  { generalize (chosen start). intros l. induction l as [|x r IHl]; cbn; [reflexivity|].
+    rewrite Nat.eqb_refl, IHl. reflexivity. }
+  rewrite E. exact H.
+Qed.
+
+(* every completed run makes at most n_genes / k + 1 passes: k * |trace| <= n_genes *)
+Theorem batch_iterations_bounded trace : forall st pool i st',
+  JK st -> PI st pool -> runk st pool trace i = KDone st' ->
+  length (chosen st') = length (chosen st) + k * length trace /\ length (chosen st') <= n_genes.
+Proof.
+  induction trace as [|b t IH]; intros st pool i st' HJ HP H.
+  - destruct (runk_inv k _ _ _ _ _ HJ HP H) as [HJ' _]. split; [|apply chosenK_bound; exact HJ'].
+    cbn [SelectionK.runk] in H. destruct (finished (update_filled st)); [|discriminate].
+    inversion H; subst. cbn. lia.
+  - cbn [SelectionK.runk] in H.
+    destruct (stepk n_genes pairs marks n k st pool b) as [st1 pool1|e|] eqn:S; [|destruct t; discriminate|discriminate].
+    destruct (stepk_inv k _ _ _ _ _ HJ HP S) as [HJ1 HP1].
+    destruct (IH _ _ _ _ HJ1 HP1 H) as [E B]. split; [|exact B].
+    destruct (batch_trace_legal k _ _ _ _ _ HJ HP S) as (L & Ch & _).
+    rewrite E, Ch, app_length, L. cbn [length]. lia.
+Qed.
+End Fuel.
+
+(* ------------------------------------------------------------------ the executable statement *)
+Theorem spec_batch_holds k prefix batches st :
+  no_gene_both_ways marks ->
+  replayk n_genes pairs marks n k prefix batches = KDone st ->
+  spec_c12_batch n_genes pairs marks n (chosen st) = true.
+Proof.
+  intros Hb H. unfold spec_c12_batch. rewrite !andb_true_iff.
+  destruct (batch_no_duplicates k _ _ _ H) as [ND Hg]. split; [split|].
+  - apply nodup_b_spec. exact ND.
+  - apply forallb_forall. intros g Hin. apply Nat.ltb_lt. apply Hg. exact Hin.
+  - apply forallb_forall. intros p Hp. apply Nat.leb_le.
+    pose proof (batch_coverage k _ _ _ Hb H p Hp) as C.
+    rewrite (covered_split marks genes p Hb) in C. exact C.
+Qed.
 End SelKP.
